@@ -78,6 +78,14 @@ fn main() {
         std::process::exit(if ctx.violations.is_empty() { 0 } else { 1 });
     }
     run(&mut ctx, replay.as_deref());
+    if tier == Tier::Thorough && replay.is_none() {
+        // statistics of the libFuzzer campaign that the driver ran just before (C01-C04, C13)
+        if let Ok(text) = std::fs::read_to_string(format!("/verif/out/fuzz/{id}.json")) {
+            if let Ok(v) = serde_json::from_str::<serde_json::Value>(&text) {
+                ctx.extra("fuzz_campaign", v);
+            }
+        }
+    }
     let code = ctx.finish();
     std::process::exit(code);
 }
